@@ -68,30 +68,44 @@ Proof. exact compute_fft_spec. Qed.
 Print Assumptions C19_compute_fft.
 
 (* ---- 3. compute_power_spectral_density ---- *)
-(* the mask (index != 0) & (index < fs/2 - 1e-6) selects exactly k <> 0 with 2k < n, i.e. neither DC nor Nyquist,
-   as soon as the frequency step exceeds 2e-6 *)
-Theorem C19_onesided_mask_exact : forall fs n k, (0 < fs)%Q -> (0 < n)%nat ->
-  (eps6 < fs / inject_Z (2 * Z.of_nat n))%Q ->
-  (doubled fs n k = true <-> k <> 0 /\ 2 * k < Z.of_nat n).
-Proof. exact doubled_exact. Qed.
+(* the one-sided mask (repaired tree: doubled_freqs = index > 0): a row is doubled iff its k is strictly positive ... *)
+Theorem C19_onesided_mask_exact : forall k, doubled k = true <-> 0 < k.
+Proof. exact doubled_iff. Qed.
 Print Assumptions C19_onesided_mask_exact.
+(* ... and every row present in the one-sided form (k = 0 .. ceil(n/2)-1) lies strictly below Nyquist (2k < n):
+   np.fft.fftfreq puts the Nyquist frequency of even n at the negative end.  So "doubled" = strictly positive and
+   non-Nyquist, for every sampling rate and every n *)
+Theorem C19_onesided_rows_below_nyquist : forall n k, In k (krange false n) -> 0 <= k /\ 2 * k < Z.of_nat n.
+Proof. exact onesided_rows_below_nyquist. Qed.
+Print Assumptions C19_onesided_rows_below_nyquist.
 
-(* ... and it is NOT exact below that: a strictly positive non-Nyquist bin that the mask fails to double
-   (fs = 2^-20 Hz, n = 3, k = 1).  The statement quantifies over all sampling rates, so this witness, replayed on
-   /repo (compute_power_spectral_density of 3 samples spaced 2^20 s), is a finding (key regime = fs/(2n)<=1e-6). *)
-Theorem C19_onesided_mask_low_rate_refuted :
-  exists fs n k, (0 < fs)%Q /\ (0 < n)%nat /\ 0 < k /\ 2 * k < Z.of_nat n /\ doubled fs n k = false.
-Proof. exact doubled_low_rate_refuted. Qed.
-Print Assumptions C19_onesided_mask_low_rate_refuted.
+(* HISTORY (pre-repair guard, Model.mask_orig = (index != 0) & (index < fs/2 - 1e-6), not used by the model any more):
+   it was exact only when the frequency step exceeds 2e-6 ... *)
+Theorem C19_mask_orig_exact : forall fs n k, (0 < fs)%Q -> (0 < n)%nat ->
+  (eps6 < fs / inject_Z (2 * Z.of_nat n))%Q ->
+  (mask_orig fs n k = true <-> k <> 0 /\ 2 * k < Z.of_nat n).
+Proof. exact mask_orig_exact. Qed.
+Print Assumptions C19_mask_orig_exact.
+(* ... where it agrees with the repaired mask on every one-sided row ... *)
+Theorem C19_mask_orig_agrees : forall fs n k, (0 < fs)%Q -> (0 < n)%nat ->
+  (eps6 < fs / inject_Z (2 * Z.of_nat n))%Q -> In k (krange false n) -> mask_orig fs n k = doubled k.
+Proof. exact mask_orig_agrees. Qed.
+Print Assumptions C19_mask_orig_agrees.
+(* ... and wrong below: fs = 2^-20 Hz, n = 3, k = 1 is a strictly positive non-Nyquist bin it did not double.  This
+   witness replayed on the pre-repair /repo was the finding (fixed: `doubled_freqs = index > 0`); the same input is now
+   a positive case of the harness (regime fs/(2n)<=1e-6). *)
+Theorem C19_mask_orig_low_rate_refuted :
+  exists fs n k, (0 < fs)%Q /\ (0 < n)%nat /\ 0 < k /\ 2 * k < Z.of_nat n /\ mask_orig fs n k = false.
+Proof. exact mask_orig_low_rate_refuted. Qed.
+Print Assumptions C19_mask_orig_low_rate_refuted.
 
 (* PSD rows: |X_k|^2 / (fs n); the one-sided form keeps k = 0 .. ceil(n/2)-1 and doubles exactly the rows k > 0
-   (all strictly positive and below Nyquist) *)
+   (all strictly positive and below Nyquist) — unconditionally in fs and n *)
 Theorem C19_psd_rows : forall (K : Field) (dft : list K -> list (cplx K)) ts (vs : list K) s e fs full n,
   length_law K dft -> sortedZ ts -> s < e -> length vs = length ts ->
   let x := inside ts vs s e in
   let n' := resolve_n K n x in
   let X := dft (crop_pad (f0 K) n' x) in
-  (0 < fs)%Q -> (0 < n')%nat -> (eps6 < fs / inject_Z (2 * Z.of_nat n'))%Q ->
   psd K dft ts vs s e fs full n
   = map (fun k => (k, let p := fmul K (psd_scale K fs n') (norm2 K (coef K n' X k)) in
                       if full then p else if k =? 0 then p else fmul K (two K) p)) (krange full n').
@@ -121,8 +135,7 @@ Theorem C19_onesided_sum_odd : forall K : Field,
   length_law K dft -> sortedZ ts -> s < e -> length vs = length ts ->
   let x := inside ts vs s e in
   let n' := resolve_n K n x in
-  hermitian_at K dft (crop_pad (f0 K) n' x) -> (0 < fs)%Q -> n' = (2 * m + 1)%nat ->
-  (eps6 < fs / inject_Z (2 * Z.of_nat n'))%Q ->
+  hermitian_at K dft (crop_pad (f0 K) n' x) -> n' = (2 * m + 1)%nat ->
   fsum K (map snd (psd K dft ts vs s e fs false n)) = fsum K (map snd (psd K dft ts vs s e fs true n)).
 Proof. exact onesided_sum_odd. Qed.
 Print Assumptions C19_onesided_sum_odd.
@@ -135,8 +148,7 @@ Theorem C19_onesided_sum_even : forall K : Field,
   let x := inside ts vs s e in
   let n' := resolve_n K n x in
   let X := dft (crop_pad (f0 K) n' x) in
-  hermitian_at K dft (crop_pad (f0 K) n' x) -> (0 < fs)%Q -> n' = (2 * m)%nat -> (0 < m)%nat ->
-  (eps6 < fs / inject_Z (2 * Z.of_nat n'))%Q ->
+  hermitian_at K dft (crop_pad (f0 K) n' x) -> n' = (2 * m)%nat -> (0 < m)%nat ->
   fsum K (map snd (psd K dft ts vs s e fs false n))
   = fsub K (fsum K (map snd (psd K dft ts vs s e fs true n))) (fmul K (psd_scale K fs n') (norm2 K (nth m X (c0 K)))).
 Proof. exact onesided_sum_even. Qed.
@@ -174,13 +186,11 @@ Theorem C19_mean_psd_is_average : forall K : Field,
   (forall n : nat, ofnat K (S n) <> f0 K) ->
   forall (dft : list K -> list (cplx K)) (window : nat -> list K) ts (vs : list K) ep L st fs full rows,
   length_law K dft -> (forall N : nat, length (window N) = N) -> sortedZ ts -> length vs = length ts ->
-  (0 < fs)%Q ->
   mean_psd K dft window ts vs ep L st fs full = Some rows ->
   let ch := chunks K ts vs ep L st in
   exists N : nat,
     ch <> [] /\ (0 < N)%nat /\ Forall (fun c => (N <= length c)%nat) ch /\ (exists c, In c ch /\ length c = N) /\
-    ((eps6 < fs / inject_Z (2 * Z.of_nat N))%Q ->
-     rows = map (fun k => (k,
+    (rows = map (fun k => (k,
                let avg := fdiv K (fsum K (map (fun c => nth (Z.to_nat (k mod Z.of_nat N)) (periodogram K dft window fs N c) (f0 K)) ch))
                                  (ofnat K (length ch)) in
                if full then avg else if k =? 0 then avg else fmul K (two K) avg)) (krange full N)).
@@ -204,7 +214,7 @@ Example C19_nonvacuous :
   /\ inside ex_ts ex_vs 1 4 = map (fun z => Q2Qc (inject_Z z)) [3; 1; 4; 1]
   /\ parseval_at QcF dft4 (crop_pad (f0 QcF) 4 (inside ex_ts ex_vs 1 4))
   /\ hermitian_at QcF dft4 (crop_pad (f0 QcF) 4 (inside ex_ts ex_vs 1 4))
-  /\ (0 < 512 # 1)%Q /\ (eps6 < (512 # 1) / inject_Z (2 * Z.of_nat 4))%Q
+  /\ (0 < 512 # 1)%Q /\ map doubled (krange false 4) = [false; true]
   /\ psd QcF dft4 ex_ts ex_vs 1 4 (512 # 1) false None = [(0, Q2Qc (81 # 2048)); (1, Q2Qc (2 # 2048))]
   /\ overlap_split [(0, 8); (10, 30)] 4 2
      = [(0, 4); (2, 6); (10, 14); (12, 16); (14, 18); (16, 20); (18, 22); (20, 24); (22, 26); (24, 28)]
